@@ -225,7 +225,14 @@ def gen_cases(ctx):
     elif kclass == "spike":
       w = np.zeros_like(w)
       w[int(rng.randint(n)), :] = float(rng.choice([-5, 5]))
-    yield {"kind": "dykstra", "cfg": cfg, "fams": fams, "kclass": kclass,
+    kscale = None
+    if rng.rand() < .15 and float(np.abs(w).max()) > 0:
+      # Dykstra's projection is scale-equivariant: a kernel of magnitude 1e-6 must converge relative to its own scale
+      # (an absolute "moved less than 1e-6" stopping rule is invisible at scale 1)
+      kscale = float(rng.choice([1e-3, 1e-6, 1e-9]))
+      w = w * kscale
+      kclass = "micro/" + kclass
+    yield {"kind": "dykstra", "cfg": cfg, "fams": fams, "kclass": kclass, "kscale": kscale,
            "w": w.astype(np.float32).tolist(), "seed": int(rng.randint(2**31 - 1)),
            "layer": bool(i % 3 == 0)}
 
@@ -328,7 +335,7 @@ def _junimod_rows(kwargs, shape):
 def _judge_groups(ctx, calls):
   for name, args, kwargs, w_in, w_out in calls:
     shape = w_in.shape
-    scale = core.scale_of(w_in)
+    scale = core.scale_of(w_in, floor=_state.get("floor", 1.0))
     tol = core.REL_TOL * scale
     site = "_project_partial/exact-group-projection"
     if name == "_project_partial_joint_unimodality":
@@ -372,7 +379,9 @@ def _run_dykstra(ctx, case):
   fams = set(case["fams"])
   ctx.cls("kernel:" + case["kclass"], "units:%d" % units, "families:" + "+".join(case["fams"]))
   A = feas.lattice_rows(cfg).dense()
-  scale = core.scale_of(w)
+  floor = 0.0 if case.get("kscale") else 1.0
+  _state["floor"] = floor
+  scale = core.scale_of(w, floor=floor)
   tol = core.REL_TOL * scale
   rng = np.random.RandomState(case["seed"])
 
@@ -434,13 +443,13 @@ def _run_dykstra(ctx, case):
   else:
     ctx.note("nearest-point-not-claimed(range dominance / joint unimodality)")
   # (a) feasible => unchanged, any N
-  x = np.stack([feas.lp_interior(A, rng, n)[0] for _ in range(units)], axis=1).astype(np.float32)
+  x = (np.stack([feas.lp_interior(A, rng, n)[0] for _ in range(units)], axis=1) * (case.get("kscale") or 1.0)).astype(np.float32)
   xv = max(_maxviol(A, x[:, u]) for u in range(units))
-  if xv <= 1e-6:
+  if xv <= 1e-6 * core.scale_of(x, floor=floor):
     for N, graph in ((int(rng.choice([1, 2, 7])), False), (50, True)):
       out = project(x, N, graph)
       d = float(np.abs(out.astype(np.float64) - x).max())
-      ctx.check("project_by_dykstra/feasible-unchanged", d <= 1e-4 * core.scale_of(x),
+      ctx.check("project_by_dykstra/feasible-unchanged", d <= 1e-4 * core.scale_of(x, floor=floor),
                 "feasible kernel moved by %.3g at N=%d" % (d, N), info={"N": N, "moved": d})
   # N = 0 is the identity
   out0 = project(w, 0)
@@ -454,7 +463,16 @@ def _run_dykstra(ctx, case):
     kf = bool(cfg["ew"]) and any(cfg["mono"][t[1]] for t in cfg["tz"])
     if not doc_exc and not kf:
       ll = _state["ll"]
-      c = ll.LatticeConstraints(num_projection_iterations=1000, **kw)
+      # slack bounds (inactive at the nearest point: 5 beyond its range, on one side or both) must not move the result -
+      # they switch on the bound branches of the strict finalisation
+      kwb = dict(kw)
+      slack = str(rng.choice(["none", "max_only", "min_only", "both"]))
+      if slack in ("max_only", "both"):
+        kwb["output_max"] = float(ref.max() + 5.0)
+      if slack in ("min_only", "both"):
+        kwb["output_min"] = float(ref.min() - 5.0)
+      ctx.cls("strict-layer:slack-bounds=" + slack)
+      c = ll.LatticeConstraints(num_projection_iterations=1000, **kwb)
       outc = tf.function(lambda t: c(t))(tf.constant(w)).numpy()
       e = float(np.abs(outc - ref).max())
       ctx.check("LatticeConstraints(N=1000)/near-nearest-point", e <= 1e-2 * scale,
